@@ -369,7 +369,13 @@ class Monitor:
     def check_capacity(self, tag):
         if "C01" not in self.on:
             return
+        demanded = getattr(self, "_demanded_names", None)
+        if demanded is None:
+            demanded = self._demanded_names = sorted({k.split("#")[0] for tp in self.W.task_params.values() for sp in tp["strategies"] for k in sp["res"]})
         for wid, (pi, wk, caps) in self.live.items():
+            for rn in demanded:  # a resource type some task needs and this worker does not own at all: capacity 0
+                if rn not in caps:
+                    self.req("C01", "within-capacity", self.used(wid, rn) <= 0, tag)
             for rn, cap in caps.items():
                 self.req("C01", "within-capacity", self.used(wid, rn) <= cap, tag)
                 if "#" in rn:
